@@ -1979,6 +1979,8 @@ fn plan_fee_auth(w: &World, actor: &mut Actor, _l: &Ledger) -> Vec<(Tx, String)>
         // the fee authority changes some of the pool's adaptive-fee constants between other users' swaps
         // (often only the accumulator maximum or the control factor, leaving the group size alone)
         let (_, c) = crate::gen2::pick_adaptive_constants(rng, pi.keys.tick_spacing, 0);
+        // one change in five asks for arbitrary constants, mostly just outside the validity rules (they must be refused)
+        let c = if rng.chance(1, 5) { crate::gen4::arbitrary_constants(rng, pi.keys.tick_spacing).1 } else { c };
         let style = rng.below(4);
         let o16 = |rng: &mut Rng, v: u16, on: bool| if on && rng.chance(2, 3) { Some(v) } else { None };
         let small_max = *rng.pick(&[0u32, 1, 10_000, 50_000]);
